@@ -123,6 +123,9 @@ class Summaries:
         E["<core::vec::Vec<T, A> as core::ops::Deref>::deref"] = self.vec_deref
         E["<core::vec::Vec<T, A> as core::ops::DerefMut>::deref_mut"] = self.vec_deref
         E["<core::vec::Vec<T, A> as core::clone::Clone>::clone"] = self.vec_clone
+        for t_ in ("u8", "u16", "u32", "u64", "u128", "usize"):
+            E["core::num::<impl %s>::wrapping_sub" % t_] = self.nowrap_probe
+            E["core::num::<impl %s>::wrapping_add" % t_] = self.nowrap_probe
         E["core::hint::must_use"] = self.identity
         E["core::hint::black_box"] = self.identity
         E["core::mem::MaybeUninit::<T>::uninit"] = self.uninit
@@ -742,6 +745,22 @@ class Summaries:
         cap = new_int(L[0], A1_BOUND)
         st.add_fact(ln, cap, 0)
         return [(st, self.vec_value(ln, cap, ln))]
+
+    def nowrap_probe(self, st, fr, inst, t, callee, args):
+        """not a summary: inside the functions of audit/contracts.py NOWRAP_CALLERS an unsigned wrapping_add / wrapping_sub must provably not
+        wrap (obligation `wrap-free`); the call itself is then analysed from its own MIR as usual"""
+        from audit.contracts import NOWRAP_CALLERS
+        why = NOWRAP_CALLERS.get(inst.get("dpath"))
+        if why is not None and len(args) == 2 and is_int(args[0]) and is_int(args[1]):
+            a, b = args
+            A, B = st.get_iv(a), st.get_iv(b)
+            bits = callee["locals"][0].get("bits", 64)
+            if callee["path"].endswith("wrapping_sub"):
+                ok = A[0] - B[1] >= 0 or st.diff_le(b, a, 0)
+            else:
+                ok = A[1] + B[1] < (1 << bits)
+            self.ctx.oblige("wrap-free: %s" % callee["path"].rsplit("::", 1)[-1], ok, inst, self.span(t), "operands %s and %s; %s" % (A, B, why))
+        return None
 
     # -- integers ------------------------------------------------------------------
     def ret_ty(self, t):
